@@ -222,4 +222,144 @@ def qreluPo2D (slope : Rat) (maxValue : Option Rat) (useSte : Bool) (qf : Rat) (
 def binTerD (alphaNone : Bool) (th th' : Rat → Rat) (x xq : D) : D :=
   steMix true 1 (if alphaNone then D.fn th th' x else x) xq
 
+/-! ### stochastic rounding inside `_round_through`
+
+    ```
+    def _round_through(x, use_stochastic_rounding=False, precision=0.5):
+      if use_stochastic_rounding:
+        output = smart_cond(K.learning_phase(),
+            lambda: x + tf.stop_gradient(-x + stochastic_round(x, precision)),
+            lambda: x + tf.stop_gradient(-x + tf.round(x)))
+      else:
+        output = x + tf.stop_gradient(-x + tf.round(x))
+    ```
+    The learning phase is a process-level switch (`K.set_learning_phase`); the element of
+    `tf.random.uniform` used by `stochastic_round` is the explicit argument `u`. -/
+
+structure Rnd where
+  stoch : Bool := false        -- use_stochastic_rounding
+  phase : Bool := false        -- K.learning_phase()
+  precision : Rat := 1         -- every class passes precision=1.0 (binary: 0.125, ternary: 1/3)
+  u : Rat := 0                 -- the uniform draw of this element (read only when stoch ∧ phase)
+  deriving Repr, DecidableEq, Inhabited
+
+namespace D
+/-- value of `tf.math.ceil` -/
+def ceilv (v : Rat) : Rat := -(((-v).floor : Int) : Rat)
+/-- value of `stochastic_round(x, precision)`:
+    `scale = 1/precision; sx = x*scale; fraction = sx - floor(sx)`
+    `where(fraction < uniform, floor(sx), ceil(sx)) / scale` -/
+def stochRoundV (precision u v : Rat) : Rat :=
+  let scale : Rat := 1 / precision
+  let sx : Rat := v * scale
+  let fl : Rat := ((sx.floor : Int) : Rat)
+  (if sx - fl < u then fl else ceilv sx) / scale
+/-- `stochastic_round`: floor / ceil have zero gradient and `tf.where` only routes -/
+def stochRound (precision u : Rat) (a : D) : D := ⟨stochRoundV precision u a.val, 0⟩
+/-- `_round_through(x, use_stochastic_rounding, precision)` in the learning phase `r.phase` -/
+def roundThroughS (t : Tie) (r : Rnd) (a : D) : D :=
+  if r.stoch then
+    (if r.phase then add a (sg (add (neg a) (stochRound r.precision r.u a)))
+     else add a (sg (add (neg a) (round t a))))
+  else add a (sg (add (neg a) (round t a)))
+end D
+
+/-- a rounding step is STRAIGHT-THROUGH when it passes the tangent of its argument unchanged -/
+def StraightThrough (rt : D → D) : Prop := ∀ a : D, (rt a).tan = a.tan
+
+/-! The quantizers whose gradient flows THROUGH `_round_through` (no outer stop_gradient):
+    quantized_linear, quantized_tanh, quantized_sigmoid — transcribed for an arbitrary rounding step
+    `rt` (the instances: `D.roundThrough t`, `D.roundThroughS t r`; `D.round t` = the residual
+    dropped). -/
+
+def qlinearRD (rt : D → D) (c : LinCfg) (qs : D) (qf : Rat) (x : D) : D :=
+  let q := D.sg qs
+  let s := D.div x q
+  let (lo, hi, shift) : Rat × Rat × Rat :=
+    if c.signFn then (-1/2, 1/2, 1/2) else ((c.lo : Rat), (c.hi : Rat), 0)
+  let cl := D.clip s lo hi
+  let r := rt (D.add cl (D.const (-shift)))
+  let xq := D.mul (D.add r (D.const shift)) q
+  D.add x (D.smul qf (D.sub xq x))
+
+def qtanhRD (rt : D → D) (bits : Int) (symmetric : Bool) (p : D) : D :=
+  let m : Rat := (twoPow (bits - 1) : Rat)
+  D.clip (D.smul (1 / m) (rt (D.smul m p)))
+    (-1 + (if symmetric then 1 else 0) / m) (1 - 1 / m)
+
+def qsigmoidRD (rt : D → D) (bits : Int) (symmetric : Bool) (p : D) : D :=
+  let m : Rat := (twoPow bits : Rat)
+  D.clip (D.smul (1 / m) (rt (D.smul m p))) ((if symmetric then 1 else 0) / m) (1 - 1 / m)
+
+/-- `quantized_bits` (constant scale) for an arbitrary rounding step: the whole `xq` sits under the
+    outer stop_gradient of the return expression -/
+def qbitsXqR (rt : D → D) (c : BitsCfg) (x : D) : D :=
+  if 0 < c.ub then
+    let m : Rat := (twoPow c.ub : Rat)
+    let mi : Rat := pow2 c.integer
+    let p := D.smul (m / mi) x
+    let r := rt p
+    let cl := D.clip r (c.lo : Rat) (c.hi : Rat)
+    D.smul c.gain (D.smul (mi / m) cl)
+  else
+    D.const (c.gain * (if c.keepNeg then signPM x.val else (signPM x.val + 1) / 2))
+
+def qbitsRD (rt : D → D) (c : BitsCfg) (useSte : Bool) (qf : Rat) (x : D) : D :=
+  steMix useSte qf x (qbitsXqR rt c x)
+
+/-! ### the ReLU family for an arbitrary `negative_slope`
+
+    Both constructors accept every power of two (`assert np.mod(np.log2(negative_slope), 1) == 0`):
+    2^-k, 1, 2, 4, …  `reluPo2Xu` (above) is the surrogate `where(x <= bound, K.relu(x, slope), bound)`
+    for ANY rational slope; quantized_relu's bound is `m_i - m_f` (is_quantized_clip) or
+    `relu_upper_bound`. -/
+
+def reluBound (integer nsb : Int) (o : ReluOpts) : Option Rat :=
+  if o.isQuantizedClip then some (pow2 integer - pow2 (integer - nsb)) else o.upper
+
+/-- `quantized_relu` with `negative_slope = slope` (any value), `non_sign_bits = nsb` -/
+def qreluGD (slope : Rat) (integer nsb : Int) (o : ReluOpts) (useSte : Bool) (qf : Rat) (x xq : D) : D :=
+  steMix useSte qf (reluPo2Xu slope (reluBound integer nsb o) x) xq
+
+/-- the documented surrogate of the ReLU family as a plain function -/
+def leakyBounded (slope : Rat) (bound : Option Rat) (x : Rat) : Rat :=
+  match bound with
+  | some b => if x ≤ b then (if 0 < x then x else slope * x) else b
+  | none => if 0 < x then x else slope * x
+
+/-- … and its derivative (`K.relu` convention: `slope` AT 0; 0 above the bound) -/
+def leakyBoundedSlope (slope : Rat) (bound : Option Rat) (x : Rat) : Rat :=
+  match bound with
+  | some b => if x ≤ b then (if 0 < x then 1 else slope) else 0
+  | none => if 0 < x then 1 else slope
+
+/-- `tf.maximum(slope * x, x)` — NOT the code: the "plain tf ops" form of the leaky ReLU, which is the
+    leaky ReLU only for `slope ≤ 1` (`C06_leaky_max_form_iff`).  Gradient convention of
+    `tf.maximum(a, b)`: to `a` where `a ≥ b`, else to `b`. -/
+def leakyMaxForm (slope : Rat) (x : D) : D :=
+  let a := D.smul slope x
+  if x.val ≤ a.val then a else x
+
+/-! ### binary(use_stochastic_rounding=True), training branch
+
+    ```
+    m = K.max(tf.abs(x), axis=axis, keepdims=True)
+    m = tf.where(m > 1.0, tf.ones_like(m), m)
+    f = 2 * m                                             # NOT under stop_gradient
+    x = smart_cond(K.learning_phase(),
+        lambda: f * _round_through(x / f, use_stochastic_rounding=True, precision=0.125),
+        lambda: x)
+    …
+    if self.alpha is None: x = K.tanh(x)
+    return x + tf.stop_gradient(-x + self.scale * k_sign)
+    ```
+    `f` is differentiable in the arg-max element (when `max|x| ≤ 1`): it enters as a dual number. -/
+
+def binSRTrainX (t : Tie) (f : D) (u : Rat) (x : D) : D :=
+  D.mul f (D.roundThroughS t { stoch := true, phase := true, precision := 1/8, u := u } (D.div x f))
+
+def binSRD (t : Tie) (phase alphaNone : Bool) (th th' : Rat → Rat) (f : D) (u : Rat) (x xq : D) : D :=
+  let xr := if phase then binSRTrainX t f u x else x
+  steMix true 1 (if alphaNone then D.fn th th' xr else xr) xq
+
 end QKV
